@@ -559,6 +559,34 @@ func genMatch(rt *rapid.T, call string) string {
 			}
 			continue
 		}
+		if kind == "descrres" && rapid.IntRange(0, 4).Draw(rt, "partial") == 0 {
+			// a description response that lacks the device-information block, the service-families block or both (only
+			// further blocks, or nothing at all behind the header): service 0x0204 and a sequence of well-formed blocks
+			// make it a description response - by construction, it is the complete one with blocks cut out
+			f.Extra = common.GenValidDIBs(rt)
+			b, _ := common.RefEncode(f)
+			if len(b) < 6+54+2 || b[6] != 54 {
+				continue
+			}
+			famLen := int(b[60])
+			dropDev, dropFam := rapid.Bool().Draw(rt, "drop-dev"), rapid.Bool().Draw(rt, "drop-fam")
+			if !dropDev && !dropFam {
+				dropDev = true
+			}
+			out := append([]byte{}, b[:6]...)
+			if !dropDev {
+				out = append(out, b[6:60]...)
+			}
+			if !dropFam {
+				out = append(out, b[60:60+famLen]...)
+			}
+			out = append(out, b[60+famLen:]...)
+			out[4], out[5] = byte(len(out)>>8), byte(len(out))
+			if _, err := decodeWithin(b, 3*time.Second); err == nil {
+				return hex.EncodeToString(out)
+			}
+			continue
+		}
 		if f.Dev != nil && rapid.IntRange(0, 3).Draw(rt, "full-name") == 0 {
 			// a device name that fills all 30 octets of its field (no terminator fits): the response is one if the
 			// same response with the name cut to 29 characters is
